@@ -104,6 +104,8 @@ def run(tier, seed, mutant=None, only_validate=False):
                     raise core.MachineryError("sensitivity run %s: expected counter-example to %s not found" % (name, inv))
         cfgs = [{"kind": "latest", "cons": [c], "max_elems": ne} for c in ("future", "coro", "sync")]
         cfgs += [{"kind": "latest", "cons": ["future"], "max_elems": ne, "fine": True}]
+        # latest as the lossless input of zip_latest (whose update() answers with a nested list)
+        cfgs += [{"kind": "latest", "cons": [c], "max_elems": ne, "tail": "zip_latest"} for c in ("future", "sync")]
         # the input is disconnected at some point: "input has stopped" -- the newest element received is still owed
         cfgs += [{"kind": "latest", "cons": [c], "max_elems": ne, "disconnect": True} for c in ("future", "sync")]
         # falsy payloads: elements whose value is None / 0 are elements like any other
